@@ -31,8 +31,10 @@ CONSTANTS Mods,      \* sequence of module names
           InjCand,   \* set of <<module, event>> that may be the target of InjectEvent (may contain unknown modules)
           HookCand,  \* set of <<hooking module, <<module, event>> >>
           PreReg,    \* sequence of <<hooking module, <<module, event>> >>: events and hooks registered before the first step
+          PreHold,   \* those hooks block until the script releases them
           MaxTrig, MaxHooks, MaxCalls, MaxG, MaxSteps,
-          Buggy,
+          Buggy,     \* the hook wait as written in the pinned code
+          TreeBuggy, \* buildEnabledTree as written in the pinned code (all dependency flags cleared, then marked again)
           Emit
 
 MS == ToSet(Mods)
@@ -63,20 +65,24 @@ PreAb(a, n) == IF n > Len(PreReg) THEN a
 RECURSIVE PreHist(_)
 PreHist(n) == IF n = 0 THEN <<>>
               ELSE PreHist(n - 1) \o << [op |-> "regev", m |-> PreReg[n][2][1], ev |-> PreReg[n][2][2], expose |-> TRUE, k |-> 0, hm |-> "-", hold |-> FALSE, out |-> "ok", eager |-> FALSE],
-                                        [op |-> "reghook", m |-> PreReg[n][2][1], ev |-> PreReg[n][2][2], expose |-> FALSE, k |-> n, hm |-> PreReg[n][1], hold |-> FALSE, out |-> "ok", eager |-> FALSE] >>
+                                        [op |-> "reghook", m |-> PreReg[n][2][1], ev |-> PreReg[n][2][2], expose |-> FALSE, k |-> n, hm |-> PreReg[n][1], hold |-> PreHold, out |-> "ok", eager |-> FALSE] >>
 
-Init == /\ status = [m \in MS |-> "offline"] /\ flag = [m \in MS |-> FALSE] /\ en = [m \in MS |-> FALSE]
+Init == /\ status = [m \in MS |-> "offline"] /\ flag = [m \in MS |-> FALSE] /\ en = [e |-> [m \in MS |-> FALSE], d |-> [m \in MS |-> FALSE]]
         /\ ctx = [m \in MS |-> 0] /\ cancelled = [m \in MS |-> {}] /\ sc = [m \in MS |-> 0] /\ scClosed = [m \in MS |-> {}]
         /\ wcnt = [m \in MS |-> 0]
         /\ mst = [m \in MS |-> "idle"] /\ mgr = "none" /\ ncalls = 0 /\ sysStarted = FALSE /\ shut = FALSE
         /\ evReg = {[key |-> PreReg[n][2], internal |-> FALSE] : n \in 1..Len(PreReg)}
-        /\ hookReg = [n \in 1..Len(PreReg) |-> [h |-> PreReg[n][1], key |-> PreReg[n][2], hold |-> FALSE, id |-> n]]
+        /\ hookReg = [n \in 1..Len(PreReg) |-> [h |-> PreReg[n][1], key |-> PreReg[n][2], hold |-> PreHold, id |-> n]]
         /\ ntrig = 0 /\ envpc = <<"idle">>
         /\ g = <<>>
-        /\ ab = PreAb(CHOOSE x \in AInit(Mgmt, Mods, Subscribed) : TRUE, 1)
+        /\ ab = PreAb(CHOOSE x \in AInit(Mgmt, Mods, [i \in 1..Len(Mods) |-> SeqOf(Dep[Mods[i]])], Subscribed) : TRUE, 1)
         /\ rej = FALSE /\ hist = PreHist(Len(PreReg)) /\ done = FALSE
 
-Pick(S) == IF Emit THEN {RandomElement(S)} ELSE S
+Pick(S) == IF Emit THEN (IF S = {} THEN {} ELSE {RandomElement(S)}) ELSE S
+\* script generation only: thin out an action / draw a flag (no effect on exhaustive runs)
+Often(n) == Emit => RandomElement(1..n) > 1
+Seldom(n) == Emit => RandomElement(1..n) = 1
+Flag == IF Emit THEN {RandomElement(BOOLEAN)} ELSE {FALSE}
 
 \* feed the monitor
 Obs(ev) == LET S == Apply(ab, ev) IN
@@ -88,10 +94,10 @@ Step(s) == hist' = Append(hist, s)
 Busy == envpc # <<"idle">>
 Room == Len(hist) < MaxSteps /\ ~Busy /\ ~done /\ ~rej
 
-OSoon(m) == (Mgmt => en[m]) /\ ~flag[m]
+OSoon(m) == (Mgmt => (en.e[m] \/ en.d[m])) /\ ~flag[m]
 
 \* ------------------------------------------------------------------ registrations (driver steps)
-RegEv == /\ Room
+RegEv == /\ Room /\ (evReg # {} => Seldom(4))
          /\ \E key \in Pick(EvCand) : \E expose \in (IF Subscribed THEN Pick(BOOLEAN) ELSE {TRUE}) :
                /\ evReg' = IF \E e \in evReg : e.key = key THEN evReg ELSE evReg \cup {[key |-> key, internal |-> ~expose]}
                /\ Obs([e |-> "regev", m |-> key[1], ev |-> key[2], expose |-> expose])
@@ -99,8 +105,10 @@ RegEv == /\ Room
          /\ UNCHANGED <<modv, en, mst, mgr, ncalls, sysStarted, shut, hookReg, ntrig, envpc, g, done>>
 
 Known(key) == \E e \in evReg : e.key = key
+KnownCand == {c \in HookCand : Known(c[2])}
 RegHookA == /\ Room /\ Len(hookReg) < MaxHooks
-            /\ \E c \in Pick(HookCand) : \E hold \in Pick(BOOLEAN) : \E out \in (IF Emit THEN Pick({"ok", "err", "panic"}) ELSE {"ok"}) :
+            /\ (evReg = {} => Seldom(6))
+            /\ \E c \in Pick(IF Emit /\ KnownCand # {} /\ RandomElement(1..5) > 1 THEN KnownCand ELSE HookCand) : \E hold \in Pick(BOOLEAN) : \E out \in (IF Emit THEN Pick({"ok", "err", "panic"}) ELSE {"ok"}) :
                   LET k == Len(hookReg) + 1
                       ok == Known(c[2]) IN
                   /\ hookReg' = IF ok THEN Append(hookReg, [h |-> c[1], key |-> c[2], hold |-> hold, id |-> k])
@@ -111,7 +119,7 @@ RegHookA == /\ Room /\ Len(hookReg) < MaxHooks
 
 \* ------------------------------------------------------------------ TriggerEvent
 TrigEmit == /\ Room /\ ntrig < MaxTrig
-            /\ \E key \in Pick(TrigCand) : \E eager \in Pick(BOOLEAN) :
+            /\ \E key \in Pick(TrigCand) : \E eager \in Flag :
                   /\ ntrig' = ntrig + 1
                   /\ envpc' = <<"trig", ntrig + 1, key>>
                   /\ Obs([e |-> "trig", t |-> Tid(ntrig + 1), m |-> key[1], ev |-> key[2], data |-> ntrig + 1])
@@ -163,7 +171,7 @@ SubRun(i) == /\ g[i].kind = "sub" /\ g[i].pc = "run"
 
 \* ------------------------------------------------------------------ InjectEvent (from module j)
 InjEmit == /\ Room /\ ntrig < MaxTrig
-           /\ InjCand # {}
+           /\ InjCand # {} /\ Seldom(3)
            /\ \E j \in Pick(MS) : \E key \in Pick(InjCand) :
                  /\ ntrig' = ntrig + 1
                  /\ envpc' = <<"inj", ntrig + 1, key, j>>
@@ -228,6 +236,7 @@ HFin(i) == /\ g[i].kind = "hook" /\ g[i].pc = "body"
 RelHook == /\ Room
            /\ \E k \in 1..Len(hookReg) :
                  /\ hookReg[k].hold
+                 /\ ((\E i \in 1..Len(g) : g[i].kind = "hook" /\ g[i].pc = "held" /\ g[i].i = k) \/ ~Emit)
                  /\ hookReg' = [hookReg EXCEPT ![k].hold = FALSE]
                  /\ g' = [i \in 1..Len(g) |-> IF g[i].kind = "hook" /\ g[i].pc = "held" /\ g[i].i = k THEN [g[i] EXCEPT !.pc = "body"] ELSE g[i]]
                  /\ Step(St("relhook", "-", "-", FALSE, k, "-", FALSE, "ok", FALSE))
@@ -235,27 +244,43 @@ RelHook == /\ Room
            /\ UNCHANGED <<modv, en, mst, mgr, ncalls, sysStarted, shut, evReg, ntrig, envpc, done>>
 
 \* ------------------------------------------------------------------ lifecycle
-Wanted(m) == ~Mgmt \/ en[m]
+Wanted(m) == ~Mgmt \/ en.e[m] \/ en.d[m]
 SetEn == /\ Room /\ Mgmt /\ mgr = "none" /\ ~shut
          /\ \E m \in Pick(MS) :
-               /\ en' = [en EXCEPT ![m] = ~en[m]]
-               /\ Obs([e |-> IF en[m] THEN "disable" ELSE "enable", m |-> m])
-               /\ Step(St(IF en[m] THEN "disable" ELSE "enable", m, "-", FALSE, 0, "-", FALSE, "ok", FALSE))
+               /\ en' = [en EXCEPT !.e[m] = ~en.e[m]]
+               /\ Obs([e |-> IF en.e[m] THEN "disable" ELSE "enable", m |-> m])
+               /\ \E eager \in Flag : Step(St(IF en.e[m] THEN "disable" ELSE "enable", m, "-", FALSE, 0, "-", FALSE, "ok", eager))
          /\ UNCHANGED <<modv, mst, mgr, ncalls, sysStarted, shut, evReg, hookReg, ntrig, envpc, g, done>>
 
-CallA == /\ Room /\ mgr = "none" /\ ~shut /\ ncalls < MaxCalls
+CallA == /\ Room /\ mgr = "none" /\ ~shut /\ ncalls < MaxCalls /\ (sysStarted => Seldom(4))
          /\ \E kind \in Pick(IF ~sysStarted THEN {"start"} ELSE IF Mgmt THEN {"manage", "manage", "shutdown"} ELSE {"shutdown"}) :
-               /\ mgr' = IF kind = "start" THEN "startpass" ELSE "stoppass"
+               /\ mgr' = IF kind = "shutdown" \/ ~Mgmt THEN (IF kind = "start" THEN "startpass" ELSE "stoppass")
+                         ELSE IF kind = "start" THEN "tree_s" ELSE "tree_m"
                /\ sysStarted' = TRUE
                /\ shut' = (kind = "shutdown")
                /\ envpc' = <<"idle">>
                /\ Obs([e |-> "call", kind |-> kind])
-               /\ Step(St(kind, "-", "-", FALSE, 0, "-", FALSE, "ok", FALSE))
+               /\ \E eager \in Flag : Step(St(kind, "-", "-", FALSE, 0, "-", FALSE, "ok", eager))
          /\ ncalls' = ncalls + 1
          /\ UNCHANGED <<modv, en, mst, evReg, hookReg, ntrig, g, done>>
 
-\* the driver observes that Start() has locked the module system (monitor bookkeeping only)
-\* (folded into the call in the model: sysStarted is set by CallA; the observation follows at once)
+\* buildEnabledTree (Start and ManageModules): the flags "enabled as dependency" are recomputed from the enabled
+\* flags.  The code as pinned clears all of them first and marks the needed ones afterwards (TreeBuggy); the
+\* goroutine is held between the two halves until the script releases it (yield point mgmt.treereset).
+RECURSIVE Clo(_)
+Clo(S) == LET T == S \cup UNION {Dep[m] : m \in S} IN IF T = S THEN S ELSE Clo(T)
+Needed == Clo(UNION {Dep[m] : m \in {x \in MS : en.e[x]}})
+TreeReset == /\ mgr \in {"tree_s", "tree_m"}
+             /\ mgr' = IF mgr = "tree_s" THEN "held_s" ELSE "held_m"
+             /\ en' = IF TreeBuggy THEN [en EXCEPT !.d = [m \in MS |-> FALSE]] ELSE en
+             /\ NoObs
+             /\ UNCHANGED <<modv, mst, ncalls, sysStarted, shut, evReg, hookReg, ntrig, envpc, g, hist, done>>
+RelTree == /\ Room /\ mgr \in {"held_s", "held_m"}
+           /\ mgr' = IF mgr = "held_s" THEN "startpass" ELSE "stoppass"
+           /\ en' = [en EXCEPT !.d = [m \in MS |-> m \in Needed]]
+           /\ NoObs
+           /\ \E eager \in Flag : Step(St("reltree", "-", "-", FALSE, 0, "-", FALSE, "ok", eager))
+           /\ UNCHANGED <<modv, mst, ncalls, sysStarted, shut, evReg, hookReg, ntrig, envpc, g, done>>
 
 WantStop(m) == status[m] = "online" /\ (shut \/ ~Wanted(m)) /\ \A r \in MS : (m \in Dep[r]) => status[r] = "offline"
 WantStart(m) == status[m] = "offline" /\ Wanted(m) /\ ~shut /\ \A d \in Dep[m] : status[d] = "online"
@@ -298,7 +323,7 @@ SfBeginA(m) == /\ mst[m] = "b0" /\ mst' = [mst EXCEPT ![m] = "b1"]
 \* driver step: release the start routine of m
 RelStart(m) == /\ Room /\ mst[m] = "b1" /\ mst' = [mst EXCEPT ![m] = "b2"]
                /\ Obs([e |-> "sfend", m |-> m])
-               /\ Step(St("relstart", m, "-", FALSE, 0, "-", FALSE, "ok", FALSE))
+               /\ \E eager \in Flag : Step(St("relstart", m, "-", FALSE, 0, "-", FALSE, "ok", eager))
                /\ UNCHANGED <<modv, en, mgr, ncalls, sysStarted, shut, evReg, hookReg, ntrig, envpc, g, done>>
 MOnline(m) == /\ mst[m] = "b2"
               /\ status' = [status EXCEPT ![m] = "online"]
@@ -318,11 +343,11 @@ RetA == /\ mgr = "retpending" /\ mgr' = "none"
 Internal == \/ TrigCall \/ InjCall
             \/ \E i \in 1..Len(g) : ProcStart(i) \/ ProcStep(i) \/ SubRun(i) \/ HWait(i) \/ HWake(i) \/ HRun(i) \/ HFin(i)
             \/ \E m \in MS : MStop(m) \/ MFlag(m) \/ MCancel(m) \/ MOffline(m) \/ MStart(m) \/ SfBeginA(m) \/ MOnline(m)
-            \/ StopPassDone \/ StartPassDone \/ RetA
+            \/ StopPassDone \/ StartPassDone \/ RetA \/ TreeReset
 
 Quiet == ~Busy /\ ~ENABLED Internal
 
-SyncA == /\ Room /\ Quiet
+SyncA == /\ Room /\ Quiet /\ ((\E i \in 1..Len(g) : g[i].pc = "held") \/ Seldom(3))
          /\ (Len(hist) > 0 => hist[Len(hist)].op # "sync")
          /\ Obs([e |-> "sync"])
          /\ Step(St("sync", "-", "-", FALSE, 0, "-", FALSE, "ok", FALSE))
@@ -334,7 +359,7 @@ Finish == /\ ~done /\ ~Busy /\ (Len(hist) >= MaxSteps \/ rej)
                                              deps |-> [i \in 1..Len(Mods) |-> SeqOf(Dep[Mods[i]])], steps |-> hist, rej |-> rej])>>))
           /\ UNCHANGED <<modv, en, mst, mgr, ncalls, sysStarted, shut, evReg, hookReg, ntrig, envpc, g, ab, rej, hist>>
 
-Env == RegEv \/ RegHookA \/ TrigEmit \/ InjEmit \/ RelHook \/ SetEn \/ CallA \/ SyncA \/ \E m \in MS : RelStart(m)
+Env == RegEv \/ RegHookA \/ TrigEmit \/ InjEmit \/ RelHook \/ SetEn \/ CallA \/ SyncA \/ RelTree \/ \E m \in MS : RelStart(m)
 Next == Env \/ Internal \/ Finish
 Spec == Init /\ [][Next]_vars
 
@@ -348,5 +373,6 @@ NoRejectPrint == rej => (PrintT(<<"@@", ToJson([mgmt |-> Mgmt, sub |-> Subscribe
 CountersOK == \A m \in MS : wcnt[m] = Cardinality({i \in 1..Len(g) : g[i].kind = "hook" /\ g[i].pc \in {"held", "body"} /\ g[i].h = m})
 \* a hook never runs while its module is still starting for the first time
 NotBeforeStart == \A i \in 1..Len(g) : (g[i].kind = "hook" /\ g[i].pc \in {"held", "body"}) => (ctx[g[i].h] > 0)
-View == <<status, flag, en, ctx, cancelled, sc, scClosed, wcnt, mst, mgr, ncalls, sysStarted, shut, evReg, hookReg, ntrig, envpc, g, ab, rej, done, Len(hist)>>
+View == <<status, flag, en, ctx, cancelled, sc, scClosed, wcnt, mst, mgr, ncalls, sysStarted, shut, evReg, hookReg, ntrig, envpc, g, ab, rej, done, Len(hist),
+          IF Len(hist) > 0 THEN hist[Len(hist)].op = "sync" ELSE FALSE>>
 ====
